@@ -106,7 +106,13 @@ pub trait NodeMut {
     ) -> error::Result<XmlNode>;
 
     fn replace_child(&self, new_child: XmlNode, old_child: &XmlNode) -> error::Result<XmlNode> {
-        self.insert_before(new_child, Some(old_child))?;
+        // Replacing a child by itself changes nothing (it still has to be a child).
+        let itself =
+            new_child.id() == old_child.id() && new_child.node_type() == old_child.node_type();
+        let inserted = self.insert_before(new_child, Some(old_child))?;
+        if itself {
+            return Ok(inserted);
+        }
         self.remove_child(old_child)
     }
 
@@ -1262,7 +1268,13 @@ impl NodeMut for XmlDocument {
             };
         }
 
-        self.insert_before(new_child, Some(old_child))?;
+        // Replacing a child by itself changes nothing (it still has to be a child).
+        let itself =
+            new_child.id() == old_child.id() && new_child.node_type() == old_child.node_type();
+        let inserted = self.insert_before(new_child, Some(old_child))?;
+        if itself {
+            return Ok(inserted);
+        }
         self.remove_child(old_child)
     }
 
